@@ -92,7 +92,7 @@ func (l *List[T]) IsSorted(lt cmp.LessThan[T]) bool {
 	}
 
 	for item := l.root.Next(); item.next.Ok(); item = item.Next() {
-		if lt(item.Value(), item.Previous().Value()) {
+		if lt(item.next.Value(), item.Value()) {
 			return false
 		}
 	}
